@@ -25,30 +25,31 @@ CLAIMED = {
  "C07": ("InsertOrUpdateMany: the validation loop is proved not to touch the live views; on a non-storage error nothing changed and n == 0; on success n == len(objects) and every object went through the hooks.",
          "The lemma 'no insertion fails after validation succeeded' (many.no-late-conflict) is assumed, not machine checked. InsertOrUpdateBulk (channel producer) is not under contract."),
  "C08": ("Lock typestate contracts: every function under contract states how it needs the handle lock (H), every shared access happens in a function requiring it, every exported call under contract is proved to be exactly one critical section (ACQ_H == old+1) including DeleteAll and Search.Delete (fix c76677a), the flusher reads settings under the lock.",
-         "Interleavings are not enumerated: lockset + single critical section => linearizable is a meta argument (DESIGN.md). Exported functions not yet under contract: Create, Repair, Drop, Control, Flush*, InsertOrUpdateBulk, AssignIndex, Schema."),
+         "Interleavings are not enumerated: lockset + single critical section => linearizable is a meta argument (DESIGN.md). Exported functions not under contract: InsertOrUpdateBulk (channels), Open, Schema.Indexed/Asynchrone, NewCustomSchema, the Is* error helpers."),
  "C09": ("Non-re-entrancy and lock order (H > HS > HM > SL) are preconditions of every lock operation and are proved at every call site under contract; nothing blocking (time.Sleep) is called with a lock held; loops and recursion under contract carry decreases clauses.",
          "Termination of user hooks, the OS and regexp is assumed; loops without a decreases clause are listed in the evidence."),
  "C10": ("With async on, an accepted write is proved visible (pending and cached) at return; delete removes the pending entry and the file; Close/flushAllAndCommit post-conditions; the flusher closure is proved to run until the context is cancelled and to flush when due; the flusher is started on every path that enables async.",
-         "The real-time half (reaches disk once the timeout elapses) is liveness: not decidable by contracts. objectMap.flush / flushAll bodies are assumed contracts."),
+         "The real-time half (reaches disk once the timeout elapses) is liveness: not decidable by contracts. objectMap.flush and flushAll are proved (each pending object is written and removed, or kept when its write failed); flushDB (loop over all collections, used by Close) is an assumed contract."),
  "C11": ("objIndex.control, Schema.control and uuidsFromDir are proved: Control succeeds iff the indexed identifiers and the uuid-shaped file names agree and every field index is ordered and holds exactly the indexed ids.",
-         "Repair and DB.Control are not under contract yet; os.ReadDir assumed."),
+         "DB.Control is proved (every loaded collection is checked); Repair is proved only for safety, lock discipline, 'object files are not modified', 'pending writes are flushed first' and 'a successful Repair commits' - that the repaired index agrees with the files is NOT proved; os.ReadDir assumed."),
  "C12": ("The DB-level contracts mention only abstract views and are proved with the configuration (cache, compression, async, extension, lower-case names, indexed or not) as free symbolic inputs: one specification for the indexed and the full-scan search including error classes, Exist sees pending writes.",
          "Same trusted base as C01/C02."),
  "C13": ("Extractors return windows of the descending index in index order; Constrain rebuilds a sorted index; objIndex.search/DB.search results are non-increasing for indexed fields; collect/one/Limit/Reverse index arithmetic.",
          "assignIndex (reflection) is not under contract."),
  "C14": ("Everything stored in or returned from the cache and the pending store is proved to be a CloneObject result distinct from the caller's object (store discipline).",
-         "CloneObject (cloneValue: reflection) itself is an assumed contract: deep-copy correctness over all shapes is not decided."),
+         "CloneObject (cloneValue: reflection) itself is an assumed contract: deep-copy correctness over all shapes is not decided; a bounded stand-in checks it on 243 shapes of the real code (labelled bounded in the evidence). Flush/FlushAndCommit are proved to write the accepted (pending) value, not the caller's object."),
  "C15": ("Hook typestate: on the single and batch insertion paths the object is proved to go raw -> Transform -> schema transform -> Validate before anything is indexed or stored, and a validation error is returned as such.",
          "User hook bodies are arbitrary within their contract; InsertOrUpdateBulk not under contract."),
+ "C17": ("The compatibility predicates (FieldsCompatibleWith, CompatibleWith, Schema.isCompatibleWith, Schema.update) are proved to accept iff extension and field descriptors agree; Create is proved to write no file (no flush, no schema save, no settings change) unless the given schema is compatible with the loaded one, to keep every stored value and the index when it is, to flush pending writes before asynchronous writes are switched off and to drop the cache when caching is switched off (the representation invariant is preserved); Schema.control is proved to report a changed structure; every read path is proved read-only on the file system.",
+         "FieldDescriptors (reflection) is an assumed contract with a bounded stand-in; the first load of a collection (loadSchema) is an assumed contract, so 'refused on every operation after reopen' rests on it plus Schema.control; Create's new-collection path is proved for schemas without a caller-supplied index (assume default-index)."),
  "C19": ("Zero-annotation panic-freedom obligations (index, slice bounds, nil dereference, type assertion, nil map store, division, explicit panic, integer overflow) on every instruction of every function under contract, plus error-class clauses for search arguments (unknown field/operator, mistyped value, invalid pattern), uuidExt/uuidsFromDir and control.",
-         "Covers functions under contract; the JSON decoders (UnmarshalJSON) are not yet under contract; reflection-bodied functions are assumed."),
+         "Covers functions under contract, including the schema decoders (with encoding/json left uncontracted, i.e. arbitrary decoded content) and exact decoding of 64-bit integers; reflection-bodied functions are assumed contracts exercised by bounded stand-ins (fieldByName: every path of a struct type to depth 3 plus ill-formed paths)."),
  "C20": ("Every search result is proved to be a fresh array (never a view of the index); every index mutator up to the exported calls is proved to write element memory only in (old) index arrays or fresh arrays (elemsFramed); And/Or leave the receiver untouched; a deleted object's id resolves to no object (the empty identifier is never indexed).",
          "History-level statement by the meta lemma fresh + framed => immutable across later calls."),
 }
 
 NOT_APPLICABLE = {
  "C16": "the canonicalisation itself is done by reflection-bodied code (Constraints.transform / recursiveTransform) and strings.ToUpper/ToLower, which no contract within reach can express; what contracts do decide (the probe is prepared by the same function before either search path; the schema transform precedes Validate, index and store) is proved under C02/C12/C15 with Schema.prepare/transform as assumed contracts",
- "C17": "the compatibility predicates (FieldsCompatibleWith/CompatibleWith) and the read-only frames after a schema error are proved, but Create, Schema.isCompatibleWith/update and FieldDescriptors (reflection) are not under contract: the property is not decided yet",
  "C18": "the naming functions are proved against the layout specification (under C01), but the primary half - a directory written by the pinned release opens identically - is a cross-build comparison over a corpus, which is not a contract on the current code",
 }
 
